@@ -206,9 +206,16 @@ def _deserialize_exception(data: Any) -> Exception:
     exc_message = data["exception_message"]
     try:
         exc_cls = import_module_from_qualified_name(data["exception_type"])
-        return exc_cls(exc_message)
     except (ImportError, AttributeError, ValueError):
         return Exception(exc_message)
+    try:
+        exc = exc_cls(exc_message)
+    except Exception:
+        # constructors that do not take a single message (json.JSONDecodeError,
+        # UnicodeDecodeError, pydantic.ValidationError, ...) must not make the
+        # event or tick unreadable
+        return Exception(exc_message)
+    return exc if isinstance(exc, Exception) else Exception(exc_message)
 
 
 SerializableException = Annotated[
